@@ -407,6 +407,88 @@ def RS.concat (items : List RS) : RS :=
     .bits (items.flatMap (fun | .bits m => m | .sels _ => []))
   else .sels (fromIter (items.flatMap RS.toSelectors))
 
+/-! ### the cached selected-row count of the mask backing (`MaskSelection::count: OnceLock<usize>`)
+
+`CRS` is `RowSelection` with the cache made explicit: every operation reads / propagates the
+cached value exactly where the Rust does (`cached_count()`, `count()`, `with_count(..)`), so a
+wrong propagation would surface as a wrong `row_count()` later in the operation history. -/
+
+/-- `MaskSelection { mask, count }` (`cache = some c` ⇔ the `OnceLock` is initialised) -/
+structure MaskSel where
+  m : List Bool
+  cache : Option Nat
+
+/-- `RowSelectionInner` with the count cache -/
+inductive CRS where
+  | sels : List Sel → CRS
+  | bits : MaskSel → CRS
+
+/-- forget the cache -/
+def CRS.toRS : CRS → RS
+  | .sels s => .sels s
+  | .bits ms => .bits ms.m
+
+/-- `RowSelection::from_boolean_buffer` / `From<Vec<RowSelector>>` (cache cold) -/
+def CRS.ofRS : RS → CRS
+  | .sels s => .sels s
+  | .bits m => .bits ⟨m, none⟩
+
+/-- `MaskSelection::count()`: `get_or_init(|| mask.count_set_bits())` → (value, warmed self) -/
+def MaskSel.count (ms : MaskSel) : Nat × MaskSel :=
+  match ms.cache with
+  | some c => (c, ms)
+  | none => (countTrue ms.m, ⟨ms.m, some (countTrue ms.m)⟩)
+
+/-- `row_count()` → (value, self afterwards) -/
+def CRS.rowCount : CRS → Nat × CRS
+  | .sels s => (sumN (s.filter (fun x => !x.2)), .sels s)
+  | .bits ms => let r := ms.count; (r.1, .bits r.2)
+
+/-- `skipped_row_count()` = `mask.len() - m.count()` -/
+def CRS.skippedRowCount : CRS → Nat × CRS
+  | .sels s => (sumN (s.filter (fun x => x.2)), .sels s)
+  | .bits ms => let r := ms.count; (ms.m.length - r.1, .bits r.2)
+
+/-- `selects_any()`: cached count if present, else scan (does not initialise the cache) -/
+def CRS.selectsAny : CRS → Bool
+  | .sels s => s.any (fun x => !x.2)
+  | .bits ms =>
+    match ms.cache with
+    | some c => decide (c > 0)
+    | none => ms.m.any id
+
+/-- `RowSelection::split_off`, mask arm with the popcount bookkeeping -/
+def CRS.splitOff : CRS → Nat → CRS × CRS
+  | .sels s, k => let ht := splitOffSel s k; (.sels ht.1, .sels ht.2)
+  | .bits ms, k =>
+    let ht := splitOffMask ms.m k
+    match ms.cache with
+    | some total =>
+      let headCount := if ht.2.isEmpty then total else countTrue ht.1
+      (.bits ⟨ht.1, some headCount⟩, .bits ⟨ht.2, some (total - headCount)⟩)
+    | none => (.bits ⟨ht.1, none⟩, .bits ⟨ht.2, none⟩)
+
+/-- `RowSelection::offset` (mask arm: `count()` then `with_count(.., count.saturating_sub(offset))`) -/
+def CRS.offset : CRS → Nat → CRS
+  | s, 0 => s
+  | .sels s, k => .sels (offsetSel s k)
+  | .bits ms, k => let c := ms.count.1; .bits ⟨offsetMask ms.m k, some (c - k)⟩
+
+/-- `RowSelection::limit` (mask arm keeps `count.min(limit)` when cached) -/
+def CRS.limit : CRS → Nat → CRS
+  | .sels s, k => .sels (limitSel s k)
+  | .bits ms, k => .bits ⟨limitMask ms.m k, ms.cache.map (fun c => min c k)⟩
+
+/-- `RowSelection::trim` (count unchanged) -/
+def CRS.trim : CRS → CRS
+  | .sels s => .sels (trimSel s)
+  | .bits ms => .bits ⟨trimMask ms.m, ms.cache⟩
+
+/-- `and_then` / `intersection` / `union`: results are built with a cold cache -/
+def CRS.andThen (a b : CRS) : Option CRS := (a.toRS.andThen b.toRS).map CRS.ofRS
+def CRS.intersection (a b : CRS) : CRS := CRS.ofRS (a.toRS.intersection b.toRS)
+def CRS.union (a b : CRS) : CRS := CRS.ofRS (a.toRS.union b.toRS)
+
 /-! ### `scan_ranges` (ranges.rs) -/
 
 /-- `scan_ranges_from_selectors`.  Pages are given by their `first_row_index`; the result is
@@ -765,21 +847,29 @@ def pushRowGroup (b rowCount : Nat) (p : Policy) (sel : Option RS) (preds : List
 
 /-- `RowGroupFrontier::next_readable_row_group` + `try_next_reader`, over the queue of chosen
 row groups given as `(first global row id, row count, predicate values of that row group)`.
-Returns the batches as global row ids. -/
+The frontier's global selection carries its count cache (`CRS`): `selection.row_count()` warms
+it, `split_off` propagates it.  Returns the batches as global row ids. -/
 def pushGo (b : Nat) (p : Policy) (hasPreds : Bool) :
-    List (Nat × Nat × List (Nat → Bool)) → Option RS → Budget → Option (List (List Nat))
+    List (Nat × Nat × List (Nat → Bool)) → Option CRS → Budget → Option (List (List Nat))
   | [], _, _ => some []
   | (base, rowCount, preds) :: rest, sel, bd =>
-    if bd.isExhausted || zeroRows sel then some []
+    -- `selection.is_some_and(|s| s.row_count() == 0)` (evaluated after `is_exhausted`)
+    let probe : Bool × Option CRS :=
+      if bd.isExhausted then (true, sel)
+      else match sel with
+        | some s => let r := s.rowCount; (r.1 == 0, some r.2)
+        | none => (false, none)
+    if probe.1 then some []
     else
       -- split this row group's slice off the global selection
-      let (slice, sel') : Option RS × Option RS := match sel with
+      let (slice, sel') : Option CRS × Option CRS := match probe.2 with
         | some s => let ht := s.splitOff rowCount; (some ht.1, some ht.2)
         | none => (none, none)
-      let selectedRows := match slice with | some s => s.rowCount | none => rowCount
+      -- `selection.row_count()` of the slice
+      let selectedRows := match slice with | some s => s.rowCount.1 | none => rowCount
       if slice.isSome ∧ selectedRows = 0 then pushGo b p hasPreds rest sel' bd
       else
-        let slice := if selectedRows = rowCount then none else slice
+        let slice : Option RS := if selectedRows = rowCount then none else slice.map CRS.toRS
         -- plan_selected_row_group
         let after := bd.rowsAfter selectedRows
         if !hasPreds ∧ after = 0 then pushGo b p hasPreds rest sel' (bd.advance selectedRows after)
